@@ -77,7 +77,7 @@ pub fn run(run: &Run) {
             distinct.add(s);
             for entry in ["parse", "parse_term"] {
                 run.eval(1);
-                match crate::watch::case(s, || case_parse(&f, entry, s)) {
+                match crate::watch::tagged(f.name, s, || case_parse(&f, entry, s)) {
                     Ok(true) => {
                         oks.fetch_add(1, std::sync::atomic::Ordering::Relaxed);
                     }
@@ -97,7 +97,7 @@ pub fn run(run: &Run) {
         pool.install(|| {
             vals.par_iter().for_each(|x| {
                 run.eval(1);
-                match case_fold(&f, x) {
+                match crate::watch::tagged(&format!("fold:{}", f.name), &ln_to_json(x).to_string(), || case_fold(&f, x)) {
                     Ok(true) => {
                         fold_ok.fetch_add(1, std::sync::atomic::Ordering::Relaxed);
                     }
